@@ -22,6 +22,7 @@ pub fn singleton_load__KEY_CONFIG(storage: &dyn Storage) -> (r: StdResult<Config
 #[verifier::external_body]
 pub fn singleton_save__KEY_CONFIG(storage: &mut dyn Storage, v: &Config) -> (r: StdResult<()>)
     ensures
+        r is Ok,   // serde serialisation of these plain types cannot fail (T4)
         r is Ok ==> final(storage).view() == (Store { config: Some(*v), ..old(storage).view() }),
         r is Err ==> final(storage).view() == old(storage).view(),
 { unimplemented!() }
@@ -36,6 +37,7 @@ pub fn singleton_load__KEY_STATE(storage: &dyn Storage) -> (r: StdResult<State>)
 #[verifier::external_body]
 pub fn singleton_save__KEY_STATE(storage: &mut dyn Storage, v: &State) -> (r: StdResult<()>)
     ensures
+        r is Ok,   // serde serialisation of these plain types cannot fail (T4)
         r is Ok ==> final(storage).view() == (Store { state: Some(*v), ..old(storage).view() }),
         r is Err ==> final(storage).view() == old(storage).view(),
 { unimplemented!() }
@@ -48,6 +50,7 @@ pub fn singleton_may_load__KEY_RESERVE_SNAPSHOT_COUNTER(storage: &dyn Storage) -
 #[verifier::external_body]
 pub fn singleton_save__KEY_RESERVE_SNAPSHOT_COUNTER(storage: &mut dyn Storage, v: &u64) -> (r: StdResult<()>)
     ensures
+        r is Ok,   // serde serialisation of these plain types cannot fail (T4)
         r is Ok ==> final(storage).view() == (Store { counter: Some(*v), ..old(storage).view() }),
         r is Err ==> final(storage).view() == old(storage).view(),
 { unimplemented!() }
@@ -69,6 +72,7 @@ pub fn bucket_load__KEY_RESERVE_SNAPSHOT(storage: &dyn Storage, key: BeKey) -> (
 #[verifier::external_body]
 pub fn bucket_save__KEY_RESERVE_SNAPSHOT(storage: &mut dyn Storage, key: BeKey, v: &ReserveSnapshot) -> (r: StdResult<()>)
     ensures
+        r is Ok,   // serde serialisation of these plain types cannot fail (T4)
         r is Ok ==> final(storage).view() == (Store { snapshots: old(storage).view().snapshots.insert(key.k@, *v), ..old(storage).view() }),
         r is Err ==> final(storage).view() == old(storage).view(),
 { unimplemented!() }
